@@ -153,6 +153,10 @@ structure Sh where
   pheld : Bool := false
   pdata : Bytes := []
   perr : Option Err := none
+  -- ghost fields (proof-only history; never read by `stepPC`/`envStep`, ignored by the driver and the Go tie)
+  hist : List Frame := []             -- every frame ever appended to the writer, in order
+  midN : Nat := 0                     -- number of `id.Message++` executed so far (unbounded copy of `mid`)
+  failed : Bool := false              -- some transport write has returned an error
 deriving Repr
 
 structure St where
@@ -269,14 +273,14 @@ def stepPC (s : St) (t : Tid) : PC → Option St
     | .msgSend _ _ => some (s.upd t { s.sh with wHeld := true } (.marshal c sec))
     | .rawWrite k d =>
       let mid' := s.sh.mid + 1
-      some (s.upd t { s.sh with wHeld := true, mid := mid' } (.frame { sec with frames := framesOf s.opts mid' k d }))
+      some (s.upd t { s.sh with wHeld := true, mid := mid', midN := s.sh.midN + 1 } (.frame { sec with frames := framesOf s.opts mid' k d }))
     | _ => some (s.upd t { s.sh with wHeld := true } (.flush sec))
   | .marshal c sec =>
     match c with
     | .msgSend d park =>
       if park then none else
       let mid' := s.sh.mid + 1
-      some (s.upd t { s.sh with mid := mid' } (.frame { sec with frames := framesOf s.opts mid' kindMessage d }))
+      some (s.upd t { s.sh with mid := mid', midN := s.sh.midN + 1 } (.frame { sec with frames := framesOf s.opts mid' kindMessage d }))
     | _ => none
   -- s.mu
   | .lockMu c => if s.sh.mu.isSome then none else some (s.upd t { s.sh with mu := some t } (.chkTerm c))
@@ -338,7 +342,7 @@ def stepPC (s : St) (t : Tid) : PC → Option St
   | .unlockMu c =>
     -- s.mu.Unlock(); then sendPacketLocked: newFrameLocked (mid++) under the write lock
     let mid' := s.sh.mid + 1
-    some (s.upd t { s.sh with mu := none, mid := mid' }
+    some (s.upd t { s.sh with mu := none, mid := mid', midN := s.sh.midN + 1 }
       (.frame { frames := [packetOf s.opts mid' c], checks := false, flush := .unchecked, recvAfter := none }))
   -- write section
   | .frame sec =>
@@ -351,9 +355,9 @@ def stepPC (s : St) (t : Tid) : PC → Option St
         let wbuf' := s.sh.wbuf ++ [fr]
         let sec' := { sec with frames := rest }
         if bufBytes wbuf' ≥ s.opts.wsize then
-          some (s.upd t { s.sh with wbuf := [], wFlag := true, inflight := some (t, wbuf') } (.writing sec' false))
+          some (s.upd t { s.sh with wbuf := [], wFlag := true, inflight := some (t, wbuf'), hist := s.sh.hist ++ [fr] } (.writing sec' false))
         else
-          some (s.upd t { s.sh with wbuf := wbuf', wFlag := true } (if rest.isEmpty then .flush sec' else .frame sec'))
+          some (s.upd t { s.sh with wbuf := wbuf', wFlag := true, hist := s.sh.hist ++ [fr] } (if rest.isEmpty then .flush sec' else .frame sec'))
   | .writing _ _ => none                                          -- parked in the transport (Env.release)
   | .flush sec =>
     match sec.flush with
@@ -445,7 +449,8 @@ def envStep (s : St) (e : Env) : Option St :=
       match s.pc t with
       | .writing sec fromFlush =>
         let sh1 := { sh with inflight := none, wFlag := false,
-                             wire := if err.isNone then sh.wire ++ [frs] else sh.wire }
+                             wire := if err.isNone then sh.wire ++ [frs] else sh.wire,
+                             failed := sh.failed || err.isSome }
         let r : Ret := match err with | none => .nil | some tag => .err (.transport tag)
         if fromFlush then some (s.upd t sh1 (.ret sec (cancelWrap sh1 r)))
         else match err with
